@@ -183,8 +183,10 @@ class ListeningConnection(Connection):
             incoming=True
         )
         connection._reader, connection._writer = reader, writer
-        await self.network.on_peer_accepted(connection)
+        # The connection is connected before the peer initialization message is
+        # handled: handling that message can already close the connection
         await connection.set_state(ConnectionState.CONNECTED)
+        await self.network.on_peer_accepted(connection)
 
 
 class DataConnection(Connection, abc.ABC):
